@@ -77,6 +77,18 @@ def cargo_build(package, features=None, bins=None, release=True, extra=None, tim
     return os.path.join(HARNESS, "target", "release" if release else "debug")
 
 
+def cli_exe():
+    """The real wit-bindgen CLI, rebuilt from /repo's working tree (profile `cli`)."""
+    cmd = ["cargo", "build", "--offline", "--profile", "cli", "-p", "cli"]
+    t0 = time.time()
+    p = subprocess.run(cmd, cwd=HARNESS, env=cargo_env(), stdout=subprocess.PIPE, stderr=subprocess.STDOUT, text=True, timeout=3600)
+    if p.returncode != 0:
+        log(p.stdout[-6000:])
+        raise ToolError("building the wit-bindgen CLI failed")
+    log(f"[build] cli {time.time()-t0:.1f}s")
+    return os.path.join(HARNESS, "target", "cli", "wit-bindgen")
+
+
 def sh(cmd, cwd=None, env=None, timeout=3600, input=None, check=False):
     p = subprocess.run(cmd, cwd=cwd, env=env, stdout=subprocess.PIPE, stderr=subprocess.PIPE,
                        text=True, timeout=timeout, input=input)
